@@ -567,7 +567,7 @@ def gen_hinted_pairs(r, tier):
                 xy = [r.uniform(-5.0, 5.0), r.uniform(-5.0, 5.0)]
                 yaw = r.uniform(-math.pi, math.pi - 1e-9)
                 if space == "owen":
-                    return xy + [r.uniform(-1.0, 1.0), yaw]
+                    return xy + [r.uniform(-3.0, 3.0), yaw]      # |dz| up to 6: a few percent of the pairs have no path
                 if space in ("vana", "vanaowen"):
                     return xy + [r.uniform(-1.0, 1.0), r.uniform(-0.4, 0.4), yaw]     # x y z pitch yaw
                 return xy + [yaw]
